@@ -85,10 +85,24 @@ PROPS = {
         streams=[stream('into', 'items:Into', force=['Into'], kinds=('struct', 'enum'))],
         k2=['into'],
     ),
+    'C01': dict(
+        title='Every accepted derive request expands to code that compiles',
+        theorems=[],
+        streams=[stream('all', 'whole', faults=0.05, n=(4000, 60000))],
+        k2=['eq', 'hash', 'ord', 'ordlayout', 'debug', 'clone', 'default', 'deref', 'into', 'union', 'bounds'],
+        k2_ops=['compile', 'crash'], k2_n=(25, 300),
+    ),
     'C11': dict(
         title='Automatic bounds are exactly those the generated code needs',
         theorems=[],
         streams=[stream('hdr_auto', 'headers', kinds=('struct', 'enum', 'union'), faults=0.0, n=(3000, 50000))],
+        k2=['bounds'], k2_n=(150, 2000),
+    ),
+    'C19': dict(
+        title='Generated code is insulated from the names at the derive site',
+        theorems=[],
+        streams=[stream('names', 'whole', faults=0.0, n=(3000, 50000))],
+        k2=['eq', 'hash', 'ord', 'debug', 'clone', 'deref', 'into'], k2_hostile=True, k2_n=(30, 300),
     ),
     'C12': dict(
         title="Explicit bound modes and the type's own generics are honoured verbatim",
@@ -131,6 +145,12 @@ PROPS = {
         direct=('c18', (10, 4095)),
     ),
 }
+
+# the theorems each property file must provide (names pinned in tools/theorems.json; regenerate it only
+# when a theorem is added).  A theorem that disappears, fails to check or depends on an axiom fails the check.
+_TH = json.load(open(os.path.join(os.path.dirname(os.path.abspath(__file__)), 'theorems.json')))
+for _pid, _P in PROPS.items():
+    _P['theorems'] = _TH.get(_pid, _P.get('theorems', []))
 
 def gen_cases(st, seed, n):
     pool = st['pool'] or modelled()
@@ -216,7 +236,9 @@ def run_check(pid, tier, seed):
     if P.get('k2'):
         try:
             import k2
-            k2_failures, k2_stats = k2.run(pid, P['k2'], tier, seed)
+            kn = P.get('k2_n')
+            k2_failures, k2_stats = k2.run(pid, P['k2'], tier, seed, n=(kn[0 if tier == 'quick' else 1] if kn else None),
+                                           hostile=P.get('k2_hostile', False), only_ops=P.get('k2_ops'))
         except ImportError:
             k2_stats = dict(skipped='k2 not built yet')
     for f in k2_failures:
